@@ -748,6 +748,7 @@ func (m *chainMachine) actions(prof cmProfile) map[string]func(*rapid.T) {
 	add("marketRound", m.aMarketRound)
 	add("withdrawThenClose", m.aWithdrawThenClose)
 	add("exhaustExactly", m.aExhaustExactly)
+	add("leaseChurn", m.aLeaseChurn)
 	if prof.weights != nil && prof.weights["boundaryDeploy"] > 0 {
 		add("boundaryDeploy", m.aBoundaryDeploy)
 	}
@@ -881,6 +882,66 @@ func (m *chainMachine) aMarketRound(t *rapid.T) {
 		}
 		b := placed[m.pick(t, "winner", len(placed))]
 		m.deliver("CreateLease("+m.bidName(b)+")", &mtypes.MsgCreateLease{BidID: b}, m.byAddr[b.Owner])
+	}
+}
+
+// aLeaseChurn: constructive macro for leases with a higher order sequence number next to
+// first-order leases of sibling groups held by the same provider - the tenant ends a lease, the
+// group's fresh order is taken by the same provider again, optionally after that provider took
+// the other open orders of the deployment as well, and optionally the new lease is ended too.
+func (m *chainMachine) aLeaseChurn(t *rapid.T) {
+	var cand []mtypes.Lease
+	for _, l := range m.snap.leases {
+		if l.State == mtypes.LeaseActive {
+			cand = append(cand, l)
+		}
+	}
+	if len(cand) == 0 {
+		t.Skip("no active lease")
+	}
+	l := cand[m.pick(t, "lease", len(cand))]
+	prov, ten := m.byAddr[l.LeaseID.Provider], m.byAddr[l.LeaseID.Owner]
+	if prov == nil || ten == nil {
+		t.Skip("unknown party")
+	}
+	take := func(o mtypes.Order) bool {
+		tx := m.deliver(fmt.Sprintf("CreateBid(%s,%s,price=max)", m.bidName(mtypes.MakeBidID(o.OrderID, prov.addr)), prov.name),
+			&mtypes.MsgCreateBid{Order: o.OrderID, Provider: prov.bech, Price: o.Spec.Price(), Deposit: cmCoin(m.params.bidMin)}, prov)
+		if !tx.ok {
+			return false
+		}
+		b := mtypes.MakeBidID(o.OrderID, prov.addr)
+		return m.deliver("CreateLease("+m.bidName(b)+")", &mtypes.MsgCreateLease{BidID: b}, ten).ok
+	}
+	if rapid.Bool().Draw(t, "siblingsFirst") {
+		for _, o := range m.snap.orders {
+			if o.State == mtypes.OrderOpen && o.OrderID.GroupID().DeploymentID() == l.LeaseID.DeploymentID() && o.OrderID.GSeq != l.LeaseID.GSeq {
+				take(o)
+			}
+		}
+	}
+	name := m.bidName(mtypes.BidID(l.LeaseID))
+	if !m.deliver("CloseLease("+name+")", &mtypes.MsgCloseLease{LeaseID: l.LeaseID}, ten).ok {
+		return
+	}
+	m.label("lease-churn")
+	if g := rapid.IntRange(0, 2).Draw(t, "gapBeforeReLease"); g > 0 {
+		m.advance(int64(g))
+	}
+	for _, o := range m.snap.orders {
+		if o.State == mtypes.OrderOpen && o.OrderID.GroupID() == l.LeaseID.GroupID() {
+			if take(o) {
+				m.label("re-leased-by-same-provider")
+				if rapid.Bool().Draw(t, "endAgain") {
+					nl := mtypes.MakeLeaseID(mtypes.MakeBidID(o.OrderID, prov.addr))
+					if g := rapid.IntRange(0, 2).Draw(t, "gapBeforeEnd"); g > 0 {
+						m.advance(int64(g))
+					}
+					m.deliver("CloseLease("+m.bidName(mtypes.BidID(nl))+")", &mtypes.MsgCloseLease{LeaseID: nl}, ten)
+				}
+			}
+			break
+		}
 	}
 }
 
